@@ -28,7 +28,7 @@ func runC11(c *Ctx, r *Report) {
 
 	r.Doc("control", "engine positive/negative controls analysed on every run")
 	lockControls(c, r, "control")
-	pq := p.Func("entry", "Fetcher", "processQueue")
+	pq := p.FuncI("entry", "Fetcher", "processQueue")
 	var worker *Fn
 	var goStmt *ast.GoStmt
 	walkNoLit(pq.Body, func(n ast.Node) bool {
@@ -93,7 +93,7 @@ func runC11(c *Ctx, r *Report) {
 	}
 
 	// --- worker flow: facts released / dec / signalled (signal after dec), with the lock facts of E2
-	lockFlow := le.flows[worker]
+	lockFlow := le.flows[orig(worker)]
 	wf := &Flow{P: p, Fn: worker, Entry: Facts{}}
 	wf.Node = func(n ast.Node, f Facts) {
 		walkNoLit(n, func(nd ast.Node) bool {
@@ -476,7 +476,7 @@ func runC11(c *Ctx, r *Report) {
 	r.Floor("R-C11.4", "uses of shared locals in the worker", nshared, 4)
 
 	// --- R-C11.5 context propagation
-	fetch := p.Func("entry", "Fetcher", "Fetch")
+	fetch := p.FuncI("entry", "Fetcher", "Fetch")
 	reach := c.CG.Reach([]*Fn{fetch}, false)
 	nctx := 0
 	for fn := range reach {
